@@ -26,6 +26,11 @@ def keywords():
         for w in re.findall(r"\"([A-Z_]+)\"", cond):
             out.append((w, kind))
     if len(out) < 40: raise ValueError("keyword chain not recognised")
+    # every branch of the chain must have been recognised (one emplace_back per branch, plus the final IDENTIFIER branch)
+    n_emplace = len(re.findall(r"tokens\.emplace_back\(new Token\(TokenType::", body))
+    n_branches = len(re.findall(r"if\s*\(((?:\s*word\s*==\s*\"[A-Z_]+\"\s*\|?\|?)+)\)\s*\{\s*tokens\.emplace_back", body))
+    if n_emplace != n_branches + 1:
+        raise ValueError("keyword chain only partly recognised (%d of %d branches)" % (n_branches, n_emplace - 1))
     return out
 
 def token_kinds():
@@ -49,6 +54,8 @@ def expr_levels():
         w = re.search(r"while\s*\((.*?)\)\s*\{", body, re.S)
         if not w: raise ValueError(fn + ": no operator loop")
         ops = re.findall(r"TokenType::([A-Z_]+)", w.group(1))
+        if len(re.findall(r"currentToken->type\s*==", w.group(1))) != len(ops) or len(re.findall(r"while\s*\(", body)) != 1:
+            raise ValueError(fn + ": operator loop only partly recognised")
         # operand parser: first parseX() call of the body that is not the function itself
         calls = [c for c in re.findall(r"(parse[A-Za-z]+)\(\)", body) if c != fn]
         if not ops or not calls: raise ValueError(fn + ": shape not recognised")
@@ -81,6 +88,8 @@ def builtins():
     for cls in order:
         if cls not in defs: raise ValueError("constructor of %s not recognised" % cls)
         out.append(defs[cls])
+    if len(re.findall(r"addFunction\(", ctx)) != len(order) + 1:      # + the definition of Context::addFunction itself
+        raise ValueError("registration list only partly recognised")
     return out
 
 def census():
